@@ -6,6 +6,7 @@ import (
 	"fmt"
 	"net/http"
 	"net/http/httptest"
+	"net/url"
 	"strings"
 
 	"github.com/tucats/ego/internal/defs"
@@ -182,8 +183,20 @@ func (e *c43Env) qAuthDSN(u, name string, mask int) {
 	}
 }
 
-// qRow sends a request through the real row handler.
-func (e *c43Env) qRow(u string, admin bool, idmask int, op byte, d, t string) {
+// the way a row request arrives over HTTP: the row format and the route's ?user= parameter
+type c43Form struct {
+	format   byte   // 'n' default rows, 'p' ?abstract=<value>, 'h' Accept header
+	abstract string // 'p': the value of ?abstract ("" = bare parameter); 'h': the Accept header value
+	hasUser  bool   // ?user= is present
+	userKey  string // its spelling (RequestForUser matches the name case-insensitively)
+	quser    string
+}
+
+func (f c43Form) plain() bool { return f.format == 'n' && !f.hasUser }
+
+// rowCall sends one request through the real row handler, as the router delivers it (the query parameters are
+// in the URL and in session.Parameters), and classifies the outcome: pass | 403 | nodsn.
+func (e *c43Env) rowCall(u string, admin bool, idmask int, op byte, d, t string, f c43Form) (impl string, status, action int, perm string, abstract bool) {
 	perms := []string{"ego.logon"}
 	if idmask&1 != 0 {
 		perms = append(perms, "ego.dsn.read")
@@ -197,33 +210,72 @@ func (e *c43Env) qRow(u string, admin bool, idmask int, op byte, d, t string) {
 		perms = append(perms, "ego.dsn.admin")
 	}
 
-	s := &router.Session{ID: 3, User: u, Admin: admin, Permissions: perms,
-		URLParts: map[string]any{"dsn": d, "table": t}, Parameters: map[string][]string{}}
-	rr := httptest.NewRecorder()
+	query := []string{}
+
+	switch op {
+	case 'u':
+		query = append(query, "filter=EQ(id,1)")
+	case 'd':
+		query = append(query, "filter=EQ(id,99)")
+	}
+
+	if f.format == 'p' {
+		if f.abstract == "" {
+			query = append(query, "abstract")
+		} else {
+			query = append(query, "abstract="+url.QueryEscape(f.abstract))
+		}
+	}
+
+	if f.hasUser {
+		query = append(query, f.userKey+"="+url.QueryEscape(f.quser))
+	}
+
+	target := "/dsns/x/tables/y/rows"
+	if len(query) > 0 {
+		target += "?" + strings.Join(query, "&")
+	}
 
 	var (
-		status int
-		action int
-		perm   string
+		req     *http.Request
+		handler func(*router.Session, http.ResponseWriter, *http.Request) int
 	)
 
 	switch op {
 	case 'r':
-		req, _ := http.NewRequest(http.MethodGet, "/dsns/x/tables/y/rows", nil)
-		status, action, perm = ReadRows(s, rr, req), 1, "ego.table.read"
+		req, _ = http.NewRequest(http.MethodGet, target, nil)
+		handler, action, perm = ReadRows, 1, "ego.table.read"
 	case 'i':
-		req, _ := http.NewRequest(http.MethodPut, "/dsns/x/tables/y/rows", strings.NewReader(`{"id": 1, "v": "x"}`))
-		status, action, perm = InsertRows(s, rr, req), 2, "ego.table.write"
+		req, _ = http.NewRequest(http.MethodPut, target, strings.NewReader(`{"id": 1, "v": "x"}`))
+		handler, action, perm = InsertRows, 2, "ego.table.write"
 	case 'u':
-		req, _ := http.NewRequest(http.MethodPatch, "/dsns/x/tables/y/rows?filter=EQ(id,1)", strings.NewReader(`{"v": "y"}`))
-		status, action, perm = UpdateRows(s, rr, req), 2, "ego.table.update"
+		req, _ = http.NewRequest(http.MethodPatch, target, strings.NewReader(`{"v": "y"}`))
+		handler, action, perm = UpdateRows, 2, "ego.table.update"
 	default:
-		req, _ := http.NewRequest(http.MethodDelete, "/dsns/x/tables/y/rows?filter=EQ(id,99)", nil)
-		status, action, perm = DeleteRows(s, rr, req), 2, "ego.table.delete"
+		req, _ = http.NewRequest(http.MethodDelete, target, nil)
+		handler, action, perm = DeleteRows, 2, "ego.table.delete"
 	}
 
+	if f.format == 'h' {
+		req.Header["Accept"] = []string{f.abstract}
+	}
+
+	params := map[string][]string{}
+
+	if !f.plain() {
+		for k, v := range req.URL.Query() {
+			params[k] = v
+		}
+	}
+
+	s := &router.Session{ID: 3, User: u, Admin: admin, Permissions: perms,
+		URLParts: map[string]any{"dsn": d, "table": t}, Parameters: params}
+
+	abstract = useAbstract(req) // only labels the case (which handler family served it); no oracle depends on it
+	status = handler(s, httptest.NewRecorder(), req)
+
 	_, dsnErr := dsns.DSNService.ReadDSN(3, u, d, true)
-	impl := "pass"
+	impl = "pass"
 
 	switch {
 	case status == http.StatusForbidden:
@@ -232,15 +284,16 @@ func (e *c43Env) qRow(u string, admin bool, idmask int, op byte, d, t string) {
 		impl = "nodsn"
 	}
 
-	in := fmt.Sprintf("Q %s %s %d %c %s %s", verifh.Hex(u), c43B(admin), idmask, op, verifh.Hex(d), verifh.Hex(t))
-	e.emit(in, impl)
 	e.stats.Inc("row_requests")
 
-	restricted, exists := e.o.dsnR[d]
-	e.note(in, exists && restricted && !admin)
+	return impl, status, action, perm, abstract
+}
 
-	// oracle
-	want, strict := "pass", true
+// rowWant: what the harness's own record of the grants says about a row request by (u, admin, identity mask).
+// The record is consulted for the CALLER u only: nothing in the request names anybody else's grants.
+func (e *c43Env) rowWant(u string, admin bool, idmask, action int, perm, d, t string) (want string, strict bool) {
+	restricted, exists := e.o.dsnR[d]
+	want, strict = "pass", true
 
 	switch {
 	case !exists:
@@ -262,14 +315,32 @@ func (e *c43Env) qRow(u string, admin bool, idmask int, op byte, d, t string) {
 		}
 	}
 
+	return want, strict
+}
+
+// qRow sends a request through the real row handler (default row format, no ?user=).
+func (e *c43Env) qRow(u string, admin bool, idmask int, op byte, d, t string) string {
+	impl, status, action, perm, _ := e.rowCall(u, admin, idmask, op, d, t, c43Form{format: 'n'})
+
+	in := fmt.Sprintf("Q %s %s %d %c %s %s", verifh.Hex(u), c43B(admin), idmask, op, verifh.Hex(d), verifh.Hex(t))
+	e.emit(in, impl)
+
+	restricted, exists := e.o.dsnR[d]
+	e.note(in, exists && restricted && !admin)
+
+	want, strict := e.rowWant(u, admin, idmask, action, perm, d, t)
+
 	if impl != want && (strict || impl == "pass") {
+		// the DSN-level key of (user, dsn) is ambiguous (file service): that class first, whatever else the names hold
 		class := "row"
-		if strings.Contains(d, ".") {
-			class = "authorized-dsn-dot"
-		} else if e.pipeClass(u, d) {
+		if e.pipeClass(u, d) {
 			class = "dsn-key-pipe"
+		} else if strings.Contains(d, ".") {
+			class = "authorized-dsn-dot"
 		}
 
 		e.fail(class, fmt.Sprintf("%c rows of dsn=%q table=%q by user=%q admin=%v identity-mask=%d: HTTP %d", op, d, t, u, admin, idmask, status), impl, want)
 	}
+
+	return impl
 }
